@@ -7,6 +7,7 @@ import (
 	"go/constant"
 	"go/token"
 	"go/types"
+	"os"
 	"sort"
 	"strings"
 
@@ -49,54 +50,92 @@ var ruleSelect = &Rule{
 			return out
 		}
 		n := 0
-		for _, b := range fn.Blocks {
-			for _, ins := range b.Instrs {
-				u, ok := ins.(*ssa.UnOp)
-				if !ok || u.Op != token.MUL {
-					continue
+		// the subscript executor and the helpers of package exec it hands the
+		// array to (the loop over one subscript's range moved into a function
+		// of its own)
+		hosts := []*ssa.Function{fn}
+		for _, c := range p.allCalls(fn) {
+			g := c.Call.StaticCallee()
+			if g == nil || g == fn || fnPkgPath(g) != pkgExec || g.Blocks == nil || !isMethodOfExecutor(p, g) || p.pairKind(g.Signature) != "status" {
+				continue
+			}
+			takesSeq := false
+			for _, a := range c.Call.Args {
+				if sl, ok := a.Type().Underlying().(*types.Slice); ok {
+					if it, ok := sl.Elem().Underlying().(*types.Interface); ok && it.NumMethods() == 0 {
+						takesSeq = true
+					}
 				}
-				ia, ok := u.X.(*ssa.IndexAddr)
-				if !ok {
-					continue
+			}
+			dup := false
+			for _, h := range hosts {
+				if h == g {
+					dup = true
 				}
-				if _, isC := ia.Index.(*ssa.Const); isC {
-					continue
+			}
+			// only helpers of its own: called from nowhere else
+			own := true
+			if nd := p.CG.Nodes[g]; nd != nil {
+				for _, e := range nd.In {
+					if e.Caller.Func != fn {
+						own = false
+					}
 				}
-				sl, ok := ia.X.Type().Underlying().(*types.Slice)
-				if !ok {
-					continue
-				}
-				if it, ok := sl.Elem().Underlying().(*types.Interface); !ok || it.NumMethods() != 0 {
-					continue // only sequences of items ([]any)
-				}
-				n++
-				key := fnName(fn) + ": element selected by position"
-				var bad []string
-				for _, b2 := range fn.Blocks {
-					iff, ok := b2.Instrs[len(b2.Instrs)-1].(*ssa.If)
+			}
+			if takesSeq && !dup && own {
+				hosts = append(hosts, g)
+			}
+		}
+		for _, fn := range hosts {
+			for _, b := range fn.Blocks {
+				for _, ins := range b.Instrs {
+					u, ok := ins.(*ssa.UnOp)
+					if !ok || u.Op != token.MUL {
+						continue
+					}
+					ia, ok := u.X.(*ssa.IndexAddr)
 					if !ok {
 						continue
 					}
-					if dependsOn(iff.Cond, u, 0) {
-						bad = append(bad, p.pos(iff.Cond.Pos()))
+					if _, isC := ia.Index.(*ssa.Const); isC {
+						continue
 					}
-				}
-				// the element must reach the continuation
-				reaches := false
-				for _, r := range *u.Referrers() {
-					if c, ok := r.(*ssa.Call); ok && p.pairKind(calleeSig(c)) == "status" {
-						reaches = true
+					sl, ok := ia.X.Type().Underlying().(*types.Slice)
+					if !ok {
+						continue
 					}
-				}
-				switch {
-				case len(bad) > 0:
-					sort.Strings(bad)
-					out.viol(fnName(fn)+": a subscript skips elements by value", p.pos(u.Pos()), fnName(fn),
-						"the selected element is inspected before it is handed on (branch at "+strings.Join(bad, ", ")+"): elements are dropped by value, e.g. JSON null")
-				case !reaches:
-					out.viol(key, p.pos(u.Pos()), fnName(fn), "the selected element is not handed to the continuation")
-				default:
-					out.ok(key, p.pos(u.Pos()), fnName(fn), "array[i] goes to the continuation unconditionally")
+					if it, ok := sl.Elem().Underlying().(*types.Interface); !ok || it.NumMethods() != 0 {
+						continue // only sequences of items ([]any)
+					}
+					n++
+					key := fnName(fn) + ": element selected by position"
+					var bad []string
+					for _, b2 := range fn.Blocks {
+						iff, ok := b2.Instrs[len(b2.Instrs)-1].(*ssa.If)
+						if !ok {
+							continue
+						}
+						if dependsOn(iff.Cond, u, 0) {
+							bad = append(bad, p.pos(iff.Cond.Pos()))
+						}
+					}
+					// the element must reach the continuation
+					reaches := false
+					for _, r := range *u.Referrers() {
+						if c, ok := r.(*ssa.Call); ok && p.pairKind(calleeSig(c)) == "status" {
+							reaches = true
+						}
+					}
+					switch {
+					case len(bad) > 0:
+						sort.Strings(bad)
+						out.viol(fnName(fn)+": a subscript skips elements by value", p.pos(u.Pos()), fnName(fn),
+							"the selected element is inspected before it is handed on (branch at "+strings.Join(bad, ", ")+"): elements are dropped by value, e.g. JSON null")
+					case !reaches:
+						out.viol(key, p.pos(u.Pos()), fnName(fn), "the selected element is not handed to the continuation")
+					default:
+						out.ok(key, p.pos(u.Pos()), fnName(fn), "array[i] goes to the continuation unconditionally")
+					}
 				}
 			}
 		}
@@ -115,6 +154,39 @@ var ruleLast = &Rule{
 		if sub == nil {
 			out.undecided("subscript executor", "-", "", "anchor unresolved")
 			return out
+		}
+		// the part of it that walks the subscripts may be a function of its
+		// own (`return exec.execArraySubscripts(ctx, node, value, array, found)`)
+		// that only the subscript executor calls: the size is recorded there
+		recordsLen := func(fn *ssa.Function) bool {
+			for _, s := range p.execStores(fn) {
+				if c, ok := s.Store.Val.(*ssa.Call); ok {
+					if bi, ok := c.Call.Value.(*ssa.Builtin); ok && bi.Name() == "len" {
+						return true
+					}
+				}
+			}
+			return false
+		}
+		if !recordsLen(sub) {
+			for _, c := range p.allCalls(sub) {
+				g := c.Call.StaticCallee()
+				if g == nil || g == sub || c.Call.IsInvoke() || g.Blocks == nil || !isMethodOfExecutor(p, g) || p.pairKind(g.Signature) != "status" || !recordsLen(g) {
+					continue
+				}
+				only := true
+				if nd := p.CG.Nodes[g]; nd != nil {
+					for _, e := range nd.In {
+						if e.Caller.Func != sub {
+							only = false
+						}
+					}
+				}
+				if only {
+					sub = g
+					break
+				}
+			}
 		}
 		// field stored with len(array)
 		var sizeField *types.Var
@@ -169,7 +241,16 @@ var ruleLast = &Rule{
 					switch x := ins.(type) {
 					case *ssa.IndexAddr:
 						if _, isSl := x.X.Type().Underlying().(*types.Slice); isSl && types.Identical(x.X.Type(), measured.Type()) {
-							indexed = append(indexed, x.X)
+							base := x.X
+							// a window of the array (`range array[from:to+1]`) is the array
+							for {
+								sl, ok := base.(*ssa.Slice)
+								if !ok {
+									break
+								}
+								base = sl.X
+							}
+							indexed = append(indexed, base)
 						}
 					case *ssa.Call:
 						if f := x.Call.StaticCallee(); f != nil && inModule(f) {
@@ -586,6 +667,9 @@ var ruleMethodTypes = &Rule{
 							continue
 						}
 						if e.feasible(b, ctx) {
+							if debugExh {
+								fmt.Fprintf(os.Stderr, "METHODTYPES %s %s accepted at block %d (%s)\n", c.Name(), typeStr(t), b.Index, calleeName(&cc.Call))
+							}
 							accepted = true
 						}
 					}
@@ -595,6 +679,25 @@ var ruleMethodTypes = &Rule{
 					continue
 				}
 				// rejected: every feasible exit must be a suppressible error
+				// classes of an error value; of a merge, over the ways in that
+				// the input type leaves open
+				var classifyCtx func(v ssa.Value, fs []Fact, depth int) errSet
+				classifyCtx = func(v ssa.Value, fs []Fact, depth int) errSet {
+					if ph, ok := stripConvPlain(v).(*ssa.Phi); ok && depth < 3 && ph.Parent() == target {
+						set := errSet{}
+						for i, ev := range ph.Edges {
+							if !e.phiEdgeFeasible(ph, i, ctx, 0) {
+								continue
+							}
+							pred := ph.Block().Preds[i]
+							for k := range classifyCtx(ev, edgeFacts(pred, succIndex(pred, ph.Block())), depth+1) {
+								set[k] = true
+							}
+						}
+						return set
+					}
+					return ee.classify(v, fs, map[ssa.Value]bool{})
+				}
 				for _, r := range e.feasibleReturns(target, ctx) {
 					ev := r.Results[len(r.Results)-1]
 					var set errSet
@@ -603,7 +706,7 @@ var ruleMethodTypes = &Rule{
 						for _, g := range p.gates() {
 							if g.Fn == cc.Call.StaticCallee() {
 								isGate = true
-								set = ee.classify(cc.Call.Args[1], factsAt(r.Instr.Block()), map[ssa.Value]bool{})
+								set = classifyCtx(cc.Call.Args[1], factsAt(r.Instr.Block()), 0)
 							}
 						}
 						if !isGate {
@@ -652,7 +755,7 @@ func init() {
 	})
 	addProp(&PropSpec{
 		ID:          "C16",
-		Rules:       []string{"R-METHODTYPES", "R-F2I", "R-FINITE", "R-OVF", "R-TOWER", "R-STATE", "R-RADIX", "R-EMPTYPROD", "R-ERRFIRST", "R-DIGITRANGE", "R-VARSIDENT", "R-JSONNUM", "R-CHECKEDVALUE"},
+		Rules:       []string{"R-METHODTYPES", "R-F2I", "R-FINITE", "R-OVF", "R-TOWER", "R-STATE", "R-RADIX", "R-EMPTYPROD", "R-ERRFIRST", "R-DIGITRANGE", "R-VARSIDENT", "R-JSONNUM", "R-CHECKEDVALUE", "R-OKFLAG"},
 		Explanation: "Domains and ranges of the item methods as finite tables and guard discipline: for each of the 12 methods the set of item types that reach the continuation is computed by walking the method with the input type fixed (abstract interpretation) and compared with the documented domain, every other type must leave through a suppressible error; conversions to integers are range-guarded as evaluated in float64; computed doubles are finiteness-checked; integer callbacks cannot wrap; the numeric representations are handled together; no method arm is missing.",
 		Decided: []string{"R-METHODTYPES: accepted-type table of all 12 methods (156 cells) and suppressible rejection", "R-F2I: .integer()/.bigint() conversions are range-safe (2^63 included)",
 			"R-FINITE: .double()/.number()/.decimal() never yield Inf/NaN", "R-OVF: .abs() cannot wrap", "R-TOWER", "R-METHODTYPES also reports a method constant without an arm in the dispatcher"},
